@@ -2,6 +2,7 @@
 // language version. The one that changes what rend's own code observes is panicnil=1 (a panic with a
 // nil value is recovered as nil, so "if r := recover(); r != nil" does not see it); the harness
 // module is newer and would otherwise run rend's code under different rules than a real memproxy.
+//
 //go:debug panicnil=1
 package h
 
